@@ -12,7 +12,7 @@ for ri in range(start, start + n):
     rs = prng.run_seed(pid, int(os.environ.get('VERIF_SEED', '0')), ri)
     tr = w.generate(rs, ri)
     res = w.execute(tr)
-    for v in res['violations'][:1]:
+    for v in (res['violations'] if os.environ.get('TAB_ALL') else res['violations'][:1]):
         k = (v['check'], v['site'])
         cnt[k] += 1
         ex.setdefault(k, (ri, v['detail'], len(tr['steps'])))
